@@ -131,12 +131,16 @@ class ReadableCount(Contract):
 
 @register
 class ShowScalesInfo(Contract):
-    """Bound stated: the info has two scales (scale 0 unsharded with two chunk-size entries,
-    scale 1 sharded with one); every size, chunk size and the channel count are symbolic."""
+    """Bound stated: the number of scales and of chunk-size entries is fixed per configuration (layouts with one
+    to four scales, one or two chunk sizes each, sharded and unsharded mixed; loops unrolled); every size, chunk
+    size, shard_bits and the channel count are symbolic."""
     target = "neuroglancer_scripts.scripts.scale_stats.show_scales_info"
     props = ("C20",)
     use_at_call_sites = False
-    configs = ("uint8", "uint16", "uint32", "uint64", "float32")
+    # (data type, layout): a layout lists, per scale, (number of chunk-size entries, sharded?)
+    LAYOUTS = {"U2+S1": ((2, False), (1, True)), "U1": ((1, False),), "S2": ((2, True),), "U1+U1+S1+U2": ((1, False), (1, False), (1, True), (2, False))}
+    configs = tuple((dt, "U2+S1") for dt in ("uint8", "uint16", "uint32", "uint64", "float32")) + \
+        (("uint16", "U1"), ("uint8", "S2"), ("uint32", "U1+U1+S1+U2"))
 
     def setup(self, c, cfg):
         def vec(n):
@@ -148,14 +152,16 @@ class ShowScalesInfo(Contract):
         c.assume(nch >= 1)
         sb = c.int("shard_bits", inp=True)
         c.assume(And(sb >= 0, sb <= 64))
-        self.scales = [
-            {"key": "a", "size": vec("s0_"), "chunk_sizes": [vec("c00_"), vec("c01_")]},
-            {"key": "b", "size": vec("s1_"), "chunk_sizes": [vec("c10_")],
-             "sharding": {"@type": "neuroglancer_uint64_sharded_v1", "shard_bits": sb}},
-        ]
+        dt, layout = cfg
+        self.scales = []
+        for si, (ncs, sharded) in enumerate(self.LAYOUTS[layout]):
+            sc = {"key": "abcdefgh"[si], "size": vec(f"s{si}_"), "chunk_sizes": [vec(f"c{si}{k}_") for k in range(ncs)]}
+            if sharded:
+                sc["sharding"] = {"@type": "neuroglancer_uint64_sharded_v1", "shard_bits": sb}
+            self.scales.append(sc)
         self.nch = nch
         self.cfg = cfg
-        info = {"data_type": cfg, "num_channels": nch, "scales": self.scales}
+        info = {"data_type": dt, "num_channels": nch, "scales": self.scales}
         return (info,), {}
 
     def bind(self, fn, args, kwargs):
@@ -164,11 +170,12 @@ class ShowScalesInfo(Contract):
     def ensures(self, c, result):
         import numpy as np
         from pyvc.interp import SymStr
-        isz = np.dtype(self.cfg).itemsize
+        isz = np.dtype(self.cfg[0]).itemsize
         lines = [a[0] for a in c.print_log if a and isinstance(a[0], SymStr)]
         rc_calls = [b["count"] for (t, b, r) in c.calls_log if t.endswith("readable_count")]
-        out = [("one-line-per-(scale,chunk_size)-plus-total", len(lines) == 4 and len(rc_calls) == 4)]
-        if len(lines) != 4 or len(rc_calls) != 4:
+        NL = sum(len(sc["chunk_sizes"]) for sc in self.scales) + 1
+        out = [("one-line-per-(scale,chunk_size)-plus-total", len(lines) == NL and len(rc_calls) == NL)]
+        if len(lines) != NL or len(rc_calls) != NL:
             return out
         exp = []
         for sc in self.scales:
@@ -183,13 +190,16 @@ class ShowScalesInfo(Contract):
                     n = n * (q2 + 1)
                 nbytes = sc["size"][0] * sc["size"][1] * sc["size"][2] * isz * self.nch
                 exp.append((n, nbytes))
-        for i, ((n, nbytes), line, rc) in enumerate(zip(exp, lines[:3], rc_calls[:3])):
+        for i, ((n, nbytes), line, rc) in enumerate(zip(exp, lines[:NL - 1], rc_calls[:NL - 1])):
             ints = [p for p in line.parts if isinstance(p, SInt)]
             out.append((f"line{i}:chunks==prod(ceil(size/chunk))", bool(ints) and ints[0] == n))
             out.append((f"line{i}:bytes==prod(size)*itemsize*channels", rc == nbytes))
-        tints = [p for p in lines[3].parts if isinstance(p, SInt)]
-        out.append(("total-chunks==sum", bool(tints) and tints[0] == exp[0][0] + exp[1][0] + exp[2][0]))
-        out.append(("total-bytes==sum", rc_calls[3] == exp[0][1] + exp[1][1] + exp[2][1]))
+        tints = [p for p in lines[NL - 1].parts if isinstance(p, SInt)]
+        tot_n, tot_b = exp[0][0], exp[0][1]
+        for (n, nbytes) in exp[1:]:
+            tot_n, tot_b = tot_n + n, tot_b + nbytes
+        out.append(("total-chunks==sum", bool(tints) and tints[0] == tot_n))
+        out.append(("total-bytes==sum", rc_calls[NL - 1] == tot_b))
         return out
 
     def replay(self, model, cfg, ob_name):
@@ -199,10 +209,13 @@ class ShowScalesInfo(Contract):
         from neuroglancer_scripts.scripts.scale_stats import show_scales_info
         g = lambda n: max(1, model.get(n, 1))
         vec = lambda n: [g(f"{n}{i}") for i in range(3)]
-        info = {"data_type": cfg, "num_channels": g("num_channels"), "scales": [
-            {"key": "a", "size": vec("s0_"), "chunk_sizes": [vec("c00_"), vec("c01_")]},
-            {"key": "b", "size": vec("s1_"), "chunk_sizes": [vec("c10_")],
-             "sharding": {"shard_bits": model.get("shard_bits", 0)}}]}
+        scales = []
+        for si, (ncs, sharded) in enumerate(self.LAYOUTS[cfg[1]]):
+            sc = {"key": "abcdefgh"[si], "size": vec(f"s{si}_"), "chunk_sizes": [vec(f"c{si}{k}_") for k in range(ncs)]}
+            if sharded:
+                sc["sharding"] = {"shard_bits": model.get("shard_bits", 0)}
+            scales.append(sc)
+        info = {"data_type": cfg[0], "num_channels": g("num_channels"), "scales": scales}
         buf = io.StringIO()
         try:
             import warnings
